@@ -14,7 +14,7 @@ r = git('apply', patch, check=False)
 if r.returncode != 0:
     r = git('apply', '--3way', patch, check=False)
     if r.returncode != 0:
-        print('PATCH DOES NOT APPLY:', r.stdout); git('checkout', '--', '.'); git('reset', '-q'); sys.exit(3)
+        print('PATCH DOES NOT APPLY:', r.stdout[:300]); git('reset', '-q', '--hard', 'HEAD'); sys.exit(3)
 try:
     for c in args:
         p = subprocess.run(['/verif/check', c, '--tier', tier], cwd='/verif', stdout=subprocess.PIPE, stderr=subprocess.STDOUT, text=True)
@@ -25,5 +25,5 @@ try:
         if p.returncode == 2:
             print(p.stdout[-1500:])
 finally:
-    git('reset', '-q'); git('checkout', '--', '.')
+    git('reset', '-q', '--hard', 'HEAD')
     assert git('status', '--porcelain', '--untracked-files=no').stdout.strip() == ''
